@@ -300,3 +300,75 @@ M('C05', 'c05-repeat-limit-stop-is-skip', 'openhtf/core/test_state.py',
   "    if result is None or result.is_terminal or self.hit_repeat_limit:",
   "    if result is None or result.is_terminal:",
   'exceeding the repeat limit recorded as SKIP instead of ERROR')
+
+# ---------------------------------------------------------------- C09
+M('C09', 'c09-break-after-raising-callback', 'openhtf/core/test_descriptor.py',
+  "            _LOG.error('Output callback %s raised:\\n%s\\nContinuing anyway...',\n                       output_cb, stacktrace)",
+  "            _LOG.error('Output callback %s raised:\\n%s\\nContinuing anyway...',\n                       output_cb, stacktrace)\n            break",
+  'remaining callbacks skipped after one raises')
+M('C09', 'c09-forget-remove-handler', 'openhtf/core/test_state.py',
+  "    logs.remove_record_handler(self.execution_uid)",
+  "    pass",
+  'record log handler never removed')
+M('C09', 'c09-leave-executor-set', 'openhtf/core/test_descriptor.py',
+  "        self._executor.close()\n        self._executor = None",
+  "        self._executor.close()",
+  'Test keeps its executor after execute()')
+M('C09', 'c09-no-default-dut', 'openhtf/core/test_executor.py',
+  "      self.test_state.test_record.dut_id = self._test_options.default_dut_id",
+  "      pass",
+  'default DUT id not applied')
+M('C09', 'c09-still-registered', 'openhtf/core/test_descriptor.py',
+  "        del self.TEST_INSTANCES[self.uid]\n",
+  "",
+  'test stays registered for SIGINT')
+M('C09', 'c09-overlap-allowed', 'openhtf/core/test_descriptor.py',
+  "      if self._executor:\n        raise InvalidTestStateError('Test already running', self._executor)",
+  "      if False:\n        raise InvalidTestStateError('Test already running', self._executor)",
+  'overlapping execute() not refused')
+M('C09', 'c09-return-true-on-fail', 'openhtf/core/test_descriptor.py',
+  "    return final_state.test_record.outcome == htf_test_record.Outcome.PASS",
+  "    return final_state.test_record.outcome in (htf_test_record.Outcome.PASS, htf_test_record.Outcome.TIMEOUT)",
+  'execute() returns True for TIMEOUT')
+M('C09', 'c09-config-snapshot-missing', 'openhtf/core/test_descriptor.py',
+  "      self._test_desc.metadata['config'] = CONF._asdict()",
+  "      self._test_desc.metadata.setdefault('config', CONF._asdict())",
+  'config snapshot taken only on the first run')
+M('C09', 'c09-callbacks-before-finalize-on-error', 'openhtf/core/test_state.py',
+  "    self.test_record.end_time_millis = util.time_millis()\n    self._status = self.Status.COMPLETED",
+  "    if test_outcome != test_record.Outcome.TIMEOUT: self.test_record.end_time_millis = util.time_millis()\n    self._status = self.Status.COMPLETED",
+  'end time missing on TIMEOUT records')
+M('C09', 'c09-callback-once-more', 'openhtf/core/test_descriptor.py',
+  "        for output_cb in self._test_options.output_callbacks:\n          try:\n            output_cb(final_state.test_record)",
+  "        for output_cb in self._test_options.output_callbacks:\n          try:\n            output_cb(final_state.test_record)\n            if final_state.test_record.outcome == htf_test_record.Outcome.ABORTED: output_cb(final_state.test_record)",
+  'callbacks called twice for ABORTED runs')
+
+# ---------------------------------------------------------------- C08
+M('C08', 'c08-double-teardown-on-ctor-failure', 'openhtf/plugs/__init__.py',
+  "                     plug_instance)\n    self._plugs_by_type.clear()\n    self._plugs_by_name.clear()",
+  "                     plug_instance)",
+  'tear_down_plugs no longer forgets the plugs: the constructor-failure path tears down twice')
+M('C08', 'c08-skip-teardown-when-start-terminal', 'openhtf/core/test_executor.py',
+  "  def _execute_test_teardown(self) -> None:\n    # Plug teardown does not affect the test outcome.\n    self.running_test_state.plug_manager.tear_down_plugs()",
+  "  def _execute_test_teardown(self) -> None:\n    # Plug teardown does not affect the test outcome.\n    if not (self._last_execution_unit == 'TestStart'): self.running_test_state.plug_manager.tear_down_plugs()",
+  'plugs not torn down when test_start was terminal')
+M('C08', 'c08-clear-before-teardown', 'openhtf/plugs/__init__.py',
+  "    _LOG.debug('Tearing down all plugs.')\n    for plug_type, plug_instance in self._plugs_by_type.items():",
+  "    _LOG.debug('Tearing down all plugs.')\n    for plug_type, plug_instance in list(self._plugs_by_type.items())[:2]:",
+  'only the first two plugs are torn down')
+M('C08', 'c08-all-plugs-before-test-start', 'openhtf/core/test_executor.py',
+  "    if self._initialize_plugs(\n        plug_types=[phase_plug.cls for phase_plug in self._test_start.plugs]):",
+  "    if self._initialize_plugs():",
+  'all plugs are constructed before test_start runs')
+M('C08', 'c08-new-instance-per-phase', 'openhtf/plugs/__init__.py',
+  "    return {name: self._plugs_by_type[cls] for name, cls in plug_name_map}",
+  "    return {name: (self._plugs_by_type[cls] if name != 'plug1' else cls()) for name, cls in plug_name_map}",
+  'one plug class gets a fresh instance for every phase')
+M('C08', 'c08-ctor-failure-continues', 'openhtf/core/test_executor.py',
+  "      if self._initialize_plugs():\n        return",
+  "      if self._initialize_plugs():\n        pass",
+  'phases still run after a plug constructor failure')
+M('C08', 'c08-hang-blocks-others', 'openhtf/plugs/__init__.py',
+  "      if thread.is_alive():\n        thread.kill()\n        _LOG.warning('Killed tearDown for plug %s after timeout.',\n                     plug_instance)",
+  "      if thread.is_alive():\n        thread.kill()\n        _LOG.warning('Killed tearDown for plug %s after timeout.',\n                     plug_instance)\n        break",
+  'a hanging tearDown prevents the remaining plugs from being torn down')
